@@ -516,3 +516,149 @@ Proof.
   split; [cbv [pts_collide_w]; ring_concrete|].
   vm_compute. discriminate.
 Qed.
+
+(* ------------------------------------------------------------------ rings sorted with the label tie-break *)
+Section TieBreak.
+Context {label : Type}.
+Variable pts : label -> list N.
+Variable lle : label -> label -> Prop.
+Hypothesis lle_refl : forall a, lle a a.
+Hypothesis lle_trans : forall a b c, lle a b -> lle b c -> lle a c.
+Hypothesis lle_antisym : forall a b, lle a b -> lle b a -> a = b.
+Notation entry := (@entry label).
+Notation le_entry := (@le_entry label lle).
+
+Lemma le_entry_refl (e : entry) : le_entry e e.
+Proof. right. split; [reflexivity | apply lle_refl]. Qed.
+
+Lemma le_entry_trans : Relations_1.Transitive le_entry.
+Proof.
+  intros a b c [H1 | [H1 L1]] [H2 | [H2 L2]]; unfold Ketama.le_entry.
+  - left; lia.
+  - left; lia.
+  - left; lia.
+  - right. split; [lia | eauto].
+Qed.
+
+Lemma le_entry_antisym (a b : entry) : le_entry a b -> le_entry b a -> a = b.
+Proof.
+  intros [H1 | [H1 L1]] [H2 | [H2 L2]]; try lia.
+  destruct a, b; cbn [fst snd] in *. f_equal; auto.
+Qed.
+
+Lemma le_entry_point (a b : entry) : le_entry a b -> le_point a b.
+Proof. intros [H | [H _]]; unfold le_point; lia. Qed.
+
+Lemma strong_app_tail_tb (r1 : list entry) e r2 :
+  StronglySorted le_entry (r1 ++ e :: r2) -> Forall (le_entry e) r2.
+Proof.
+  induction r1 as [|a r1 IH]; cbn [app]; intros H; apply StronglySorted_inv in H; destruct H as [H1 H2].
+  - exact H2.
+  - auto.
+Qed.
+
+Lemma sorted_tb_sorted (r : list entry) : Sorted le_entry r -> Sorted le_point r.
+Proof.
+  induction 1 as [|a r Hs IH Hhd]; constructor; [exact IH|].
+  destruct Hhd; constructor. apply le_entry_point; assumption.
+Qed.
+
+Lemma ring_tb_is_ring ls r : is_ring_tb pts lle ls r -> is_ring pts ls r.
+Proof. intros [Hp Hs]. split; [exact Hp | apply sorted_tb_sorted, Hs]. Qed.
+
+(* the entry found: least (point, label) among the entries with point >= h, else least of all *)
+Definition owner_spec_tb (r : list entry) (h : N) (l : label) : Prop :=
+  (exists p, In (p, l) r /\ h <= p /\ forall e, In e r -> h <= fst e -> le_entry (p, l) e)
+  \/ ((forall e, In e r -> fst e < h) /\ exists p, In (p, l) r /\ forall e, In e r -> le_entry (p, l) e).
+
+Lemma lookup_sound_tb r h l : Sorted le_entry r -> lookup r h = Some l -> owner_spec_tb r h l.
+Proof.
+  intros Hs. apply (Sorted_StronglySorted le_entry_trans) in Hs. unfold lookup, wrap0.
+  destruct (find_ge r h) as [e|] eqn:F.
+  - intros [= <-]. left. destruct (find_ge_some _ _ _ F) as (r1 & r2 & -> & Hle & Hall).
+    exists (fst e). rewrite <- surjective_pairing. split; [apply in_elt | split; [exact Hle|]].
+    intros e' Hin Hge. apply in_app_or in Hin. destruct Hin as [Hin | [<- | Hin]].
+    + rewrite Forall_forall in Hall. specialize (Hall _ Hin). lia.
+    + apply le_entry_refl.
+    + apply strong_app_tail_tb in Hs. rewrite Forall_forall in Hs. apply (Hs _ Hin).
+  - destruct r as [|e0 r0]; [discriminate|]. intros [= <-]. right.
+    apply find_ge_none in F. rewrite Forall_forall in F. split; [exact F|].
+    exists (fst e0). rewrite <- surjective_pairing. split; [left; reflexivity|].
+    apply StronglySorted_inv in Hs. destruct Hs as [_ Hall]. rewrite Forall_forall in Hall.
+    intros e [<- | Hin]; [apply le_entry_refl | apply (Hall _ Hin)].
+Qed.
+
+Lemma owner_spec_tb_unique r h l l' : owner_spec_tb r h l -> owner_spec_tb r h l' -> l = l'.
+Proof.
+  intros [(p & Hin & Hge & Hmin) | (Hall & p & Hin & Hmin)]
+         [(p' & Hin' & Hge' & Hmin') | (Hall' & p' & Hin' & Hmin')].
+  - pose proof (le_entry_antisym _ _ (Hmin _ Hin' Hge') (Hmin' _ Hin Hge)) as E. congruence.
+  - specialize (Hall' _ Hin). cbn [fst] in Hall'. lia.
+  - specialize (Hall _ Hin'). cbn [fst] in Hall. lia.
+  - pose proof (le_entry_antisym _ _ (Hmin _ Hin') (Hmin' _ Hin)) as E. congruence.
+Qed.
+
+Lemma owner_spec_tb_nonempty r h l : owner_spec_tb r h l -> r <> [].
+Proof. intros [(p & Hin & _) | (_ & p & Hin & _)]; intros ->; destruct Hin. Qed.
+
+Lemma lookup_complete_tb r h l : Sorted le_entry r -> owner_spec_tb r h l -> lookup r h = Some l.
+Proof.
+  intros Hs Hspec. destruct (lookup_total r h (owner_spec_tb_nonempty _ _ _ Hspec)) as [l' Hl'].
+  rewrite Hl'. f_equal. eapply owner_spec_tb_unique; eauto using lookup_sound_tb.
+Qed.
+
+Lemma owner_spec_tb_sub r r' h l x :
+  (forall p l0, In (p, l0) r' <-> In (p, l0) r /\ l0 <> x) ->
+  owner_spec_tb r h l -> l <> x -> owner_spec_tb r' h l.
+Proof.
+  intros E [(p & Hin & Hge & Hmin) | (Hall & p & Hin & Hmin)] Hne.
+  - left. exists p. repeat split; [apply E; auto | auto |].
+    intros [q l0] He. apply E in He. apply Hmin, He.
+  - right. split.
+    + intros [q l0] He. apply E in He. apply Hall, He.
+    + exists p. split; [apply E; auto|]. intros [q l0] He. apply E in He. apply Hmin, He.
+Qed.
+
+(* with the tie-break no premise about the points is needed *)
+Lemma lookup_set_independent_tb ls ls' r r' :
+  (forall l, In l ls <-> In l ls') ->
+  is_ring_tb pts lle ls r -> is_ring_tb pts lle ls' r' -> forall h, lookup r h = lookup r' h.
+Proof.
+  intros E R R' h.
+  pose proof (ring_tb_is_ring _ _ R) as Rr. pose proof (ring_tb_is_ring _ _ R') as Rr'.
+  destruct r as [|e0 r0].
+  - destruct r' as [|[q l1] r1]; [reflexivity|]. exfalso.
+    assert (Hin : In (q, l1) ((q, l1) :: r1)) by (left; reflexivity).
+    apply (ring_in' pts _ _ _ _ Rr') in Hin. destruct Hin as [Hl Hq].
+    apply E in Hl. apply (proj2 (ring_in' pts ls [] q l1 Rr)). auto.
+  - destruct (lookup_total (e0 :: r0) h) as [l Hl]; [discriminate|]. rewrite Hl. symmetry.
+    apply lookup_complete_tb; [apply R'|].
+    pose proof (lookup_sound_tb _ _ _ (proj2 R) Hl) as Hspec.
+    assert (Ext : forall e, In e (e0 :: r0) <-> In e r').
+    { intros [p l0]. rewrite (ring_in' pts _ _ p l0 Rr), (ring_in' pts _ _ p l0 Rr'), E. reflexivity. }
+    destruct Hspec as [(p & Hin & Hge & Hmin) | (Hall & p & Hin & Hmin)].
+    + left. exists p. repeat split; [apply Ext; auto | auto |]. intros e He; apply Hmin, Ext, He.
+    + right. split; [intros e He; apply Hall, Ext, He|]. exists p. split; [apply Ext; auto|].
+      intros e He; apply Hmin, Ext, He.
+Qed.
+
+Lemma lookup_removal_tb ls ls' x r r' :
+  (forall l, In l ls' <-> In l ls /\ l <> x) ->
+  is_ring_tb pts lle ls r -> is_ring_tb pts lle ls' r' ->
+  forall h, lookup r h <> Some x -> lookup r' h = lookup r h.
+Proof.
+  intros E R R' h Hne.
+  pose proof (ring_tb_is_ring _ _ R) as Rr. pose proof (ring_tb_is_ring _ _ R') as Rr'.
+  assert (Esub : forall p l0, In (p, l0) r' <-> In (p, l0) r /\ l0 <> x).
+  { intros p l0. rewrite (ring_in' pts _ _ p l0 Rr), (ring_in' pts _ _ p l0 Rr'), E. tauto. }
+  destruct r as [|e0 r0].
+  - destruct r' as [|[q l1] r1]; [reflexivity|]. exfalso.
+    destruct (proj1 (Esub q l1)) as [[] _]. left; reflexivity.
+  - destruct (lookup_total (e0 :: r0) h) as [l Hl]; [discriminate|]. rewrite Hl in *.
+    apply lookup_complete_tb; [apply R'|].
+    eapply owner_spec_tb_sub; eauto.
+    + apply lookup_sound_tb; [apply R | exact Hl].
+    + congruence.
+Qed.
+
+End TieBreak.
